@@ -4,9 +4,12 @@ import (
 	"fmt"
 	"math/big"
 	"strings"
+	"unicode/utf8"
 
 	storetypes "cosmossdk.io/store/types"
+	codectypes "github.com/cosmos/cosmos-sdk/codec/types"
 	sdk "github.com/cosmos/cosmos-sdk/types"
+	txtypes "github.com/cosmos/cosmos-sdk/types/tx"
 	authtypes "github.com/cosmos/cosmos-sdk/x/auth/types"
 	banktypes "github.com/cosmos/cosmos-sdk/x/bank/types"
 
@@ -80,6 +83,8 @@ type c07Run struct {
 	PreOp       *L2Op    // executed on the branch before the judged message (e.g. the first deposit of the denom)
 	PreObs      Ov
 	PreFailed   bool
+	PreGas      uint64 // gas consumed on the message's meter before the message (a late message of a batch tx)
+	GasLimit    uint64 // limit of the message's meter (0 = practically unlimited)
 	Gas         uint64
 	HookCharges []uint64
 	Signer      uint64 // hook signer (0 = none)
@@ -129,7 +134,11 @@ func (fx *c07Fx) track(run *c07Run) L2Track {
 func (fx *c07Fx) exec(run *c07Run) {
 	e := fx.sc.Env
 	branch, _ := fx.base.CacheContext()
-	meter := &recMeter{GasMeter: storetypes.NewGasMeter(1 << 40)}
+	limit := uint64(1 << 40)
+	if run.GasLimit != 0 {
+		limit = run.GasLimit
+	}
+	meter := &recMeter{GasMeter: storetypes.NewGasMeter(limit)}
 	e.Ctx = branch.WithGasMeter(meter)
 	if run.Execs != nil {
 		ps, _ := e.K.GetParams(e.Ctx)
@@ -152,6 +161,12 @@ func (fx *c07Fx) exec(run *c07Run) {
 		run.PreFailed = !r.OK
 	}
 	run.Pre = l2ViewOf(tr, e.L2Obs(tr, ExecResult{OK: true}))
+	if run.PreGas != 0 {
+		// observation reads above were metered too: bring the meter to exactly PreGas
+		meter.GasMeter = storetypes.NewGasMeter(limit)
+		meter.GasMeter.ConsumeGas(run.PreGas, "earlier messages of the tx")
+		e.Ctx = e.Ctx.WithGasMeter(meter)
+	}
 	g0 := meter.GasConsumed()
 	*e.Fault = FaultPlan{FailAt: run.FailAt, Panic: run.Panic}
 	run.Res = e.L2Exec(run.Op)
@@ -159,6 +174,7 @@ func (fx *c07Fx) exec(run *c07Run) {
 	*e.Fault = FaultPlan{Disabled: true}
 	run.Gas = meter.GasConsumed() - g0
 	run.HookCharges = meter.hook
+	e.Ctx = e.Ctx.WithGasMeter(storetypes.NewInfiniteGasMeter()) // observation is not part of the message
 	run.PostObs = e.L2Obs(tr, run.Res)
 	run.Post = l2ViewOf(tr, run.PostObs)
 	run.Evs = parseL2EvList(run.Res.Events)
@@ -232,6 +248,23 @@ func (fx *c07Fx) judge(run *c07Run) {
 		}
 		return
 	}
+	// the failure reason put into the event is bounded and valid text, whatever the payload made it say
+	for _, ev := range run.Res.Events {
+		if ev.Type == "finalize_token_deposit" {
+			rs := attr(ev, "reason")
+			// "hook failed; " / "deposit failed; " + at most 128 bytes + "..."
+			if len(rs) > len("deposit failed; ")+128+3 {
+				fx.viol(run, "C07:reason-attribute:too-long", fmt.Sprintf("the reason attribute of the deposit event has %d bytes", len(rs)))
+			}
+			if !utf8.ValidString(rs) {
+				// KNOWN FINDING D16: the byte-wise truncation reason[:128] can split a multi-byte character
+				if !fx.known["reason-utf8"] {
+					fx.viol(run, "C07:reason-attribute:invalid-utf8", fmt.Sprintf("the reason attribute of the deposit event (%d bytes) is not valid UTF-8: the 128-byte truncation split a multi-byte character of payload-controlled error text", len(rs)))
+				}
+				fx.known["reason-utf8"] = true
+			}
+		}
+	}
 	if post.Resp != "SUCCESS" {
 		fx.viol(run, "C07:not-success", "deposit at the expected sequence did not report SUCCESS")
 		return
@@ -262,6 +295,9 @@ func (fx *c07Fx) judge(run *c07Run) {
 	guardedDepositFault := faultName == "MintCoins" || faultName == "SendCoinsFromModuleToAccount"
 	hookFault := faultName == "SendCoins" || strings.HasPrefix(faultName, "hook:")
 	hookKind := strings.TrimSuffix(run.Shape.Hook, "@gas0")
+	if strings.HasPrefix(hookKind, "mb") || hookKind == "ascii200" {
+		run.Shape.Hook = "garbage" // an undecodable payload, as far as the expected outcome goes
+	}
 	// with hook_max_gas = 0 handleBridgeHook refuses before decoding: nothing runs, the deposit is refunded
 	hookShouldRun := creditable && !guardedDepositFault && run.Shape.Hook != "none" && !run.ZeroGas
 	expectA := creditable && !guardedDepositFault &&
@@ -402,6 +438,7 @@ func genC07(seed uint64, tier string, outdir string) *Report {
 	rcps := []string{"valid", "malformed", "module", "blocked"}
 	hooks := []string{"none", "garbage", "badsig", "fail1", "fail2", "oog", "ok", "wd", "wdfail",
 		"unroutable", "sendunroutable", // a decodable message with no handler on the router (monitor-only)
+		"mb2x60", "mb3x45", "mb4x30", "mb4x40", "mbmix", "ascii200", // undecodable tx whose decoder error echoes payload-controlled (multi-byte) text
 		"garbage@gas0", "badsig@gas0", "fail1@gas0", "ok@gas0", "wd@gas0"} // hook_max_gas = 0: hooks are off, payloads must be refunded
 	gasBound := map[string][2]uint64{}
 	shapeNo := 0
@@ -453,6 +490,22 @@ func genC07(seed uint64, tier string, outdir string) *Report {
 			kind = strings.TrimSuffix(kind, "@gas0")
 			// a message type that decodes (registered interface) but whose module's msg server is not on the router
 			unroutable := &authtypes.MsgUpdateParams{Authority: e.User(signer).Str, Params: authtypes.DefaultParams()}
+			if strings.HasPrefix(kind, "mb") || kind == "ascii200" {
+				// an unsigned tx whose only message is an Any with an unregistered type URL: the decoder
+				// refuses it and names the type URL; lengths around 128 BYTES vs 128 CHARACTERS
+				url := map[string]string{
+					"mb2x60":   "/" + strings.Repeat("\u00e9", 60),                  // 2-byte runes: 121 bytes, 61 characters
+					"mb3x45":   "/" + strings.Repeat("\u20ac", 45),                  // 3-byte runes: 136 bytes, 46 characters
+					"mb4x30":   "/" + strings.Repeat("\U0001F600", 30),              // 4-byte runes: 121 bytes, 31 characters
+					"mb4x40":   "/" + strings.Repeat("\U0001F600", 40),              // 161 bytes, 41 characters
+					"mbmix":    "/" + strings.Repeat("a\u00e9\u20ac\U0001F600", 12), // mixed widths: 121 bytes, 49 characters
+					"ascii200": "/" + strings.Repeat("a", 200),
+				}[kind]
+				body, _ := (&txtypes.TxBody{Messages: []*codectypes.Any{{TypeUrl: url}}, Memo: strings.Repeat("\u00e9", 20)}).Marshal()
+				auth, _ := (&txtypes.AuthInfo{Fee: &txtypes.Fee{}}).Marshal()
+				raw, _ := (&txtypes.TxRaw{BodyBytes: body, AuthInfoBytes: auth, Signatures: [][]byte{}}).Marshal()
+				return Hook{Kind: "garbage", Raw: raw}
+			}
 			switch kind {
 			case "unroutable":
 				return e.MakeHookTxMsgs(signer, q, []sdk.Msg{unroutable}, "auth MsgUpdateParams (no handler on the router)")
@@ -613,6 +666,108 @@ func genC07(seed uint64, tier string, outdir string) *Report {
 				Bals: sc.Case.Bals, Sups: sc.Case.Sups, Pairs: sc.Case.Pairs, Ops: []L2Op{op1, op2}, Obs: []Ov{o1, o2}}
 			texts = append(texts, c.Coq())
 		}
+		// gas clause with gas ALREADY consumed on the message's meter (a late message of a batch tx):
+		// for every hook outcome class the message may add at most (same deposit without payload) +
+		// hook_max_gas (+ slack), and a meter limited to exactly that is never exceeded
+		{
+			const hookMax, slack = 200000, 3000
+			pre := uint64(3 * hookMax)
+			// baselines: the same deposit credited without payload, and the same deposit refunded without
+			// any hook execution (payload present, hook_max_gas = 0: handleBridgeHook returns at once)
+			var g0, gRefund uint64
+			{
+				op := sc.Deposit(e.User(1).Str, n1, e.User(signer).Str, depDenom, large, mkHook("garbage"))
+				rf := &c07Run{Shape: c07Shape{"valid", "large", "garbage@gas0+pregas"}, Base: b, Op: op, ZeroGas: true, PreGas: pre}
+				fx.exec(rf)
+				gRefund = rf.Gas
+			}
+			for _, hk := range []string{"none", "garbage", "mb4x40", "badsig", "fail1", "ok", "wd", "oog", "unroutable"} {
+				op := sc.Deposit(e.User(1).Str, n1, e.User(signer).Str, depDenom, large, mkHook(hk))
+				free := &c07Run{Shape: c07Shape{"valid", "large", hk + "+pregas"}, Base: b, Op: op, HookGas: hookMax, PreGas: pre}
+				fx.exec(free)
+				caseID++
+				rep.Ops++
+				rep.CountCase(fmt.Sprintf("%d/pregas/%s", b, hk), true)
+				rep.Hist("pre-consumed-gas:" + hk)
+				if hk == "none" {
+					g0 = free.Gas
+				}
+				if !free.Res.OK {
+					fx.viol(free, "C07:deposit-blocked", "a deposit made the handler fail when gas had already been consumed on the meter")
+					continue
+				}
+				base0 := g0
+				for _, ev := range parseL2EvList(free.Res.Events) {
+					if ev.IsDep && !ev.Success {
+						base0 = gRefund // the refund path (reclaim, burn, withdrawal record) costs more than the credit alone
+					}
+				}
+				bound := base0 + hookMax + slack
+				if free.Gas > bound {
+					fx.viol(free, "C07:gas-bound", fmt.Sprintf("with %d gas already consumed the message added %d gas; the same deposit with the same outcome and no hook execution adds %d, hook_max_gas is %d", pre, free.Gas, base0, hookMax))
+				}
+				for _, ch := range free.HookCharges {
+					if ch > hookMax {
+						fx.viol(free, "C07:gas-bound", fmt.Sprintf("the hook was charged %d gas, hook_max_gas is %d (gas consumed before the message: %d)", ch, hookMax, pre))
+					}
+				}
+				tight := &c07Run{Shape: c07Shape{"valid", "large", hk + "+pregas+tight-limit"}, Base: b, Op: op, HookGas: hookMax, PreGas: pre, GasLimit: pre + bound}
+				fx.exec(tight)
+				caseID++
+				rep.Ops++
+				rep.CountCase(fmt.Sprintf("%d/pregas-tight/%s", b, hk), true)
+				if !tight.Res.OK {
+					fx.viol(tight, "C07:gas-bound", fmt.Sprintf("a meter limited to (consumed so far %d) + (same deposit without hook execution %d) + hook_max_gas %d + %d was exceeded: %s", pre, base0, hookMax, slack, tight.Res.Err))
+				}
+			}
+		}
+		// natural panics in the guarded region: the stock bank keeper panics with an integer overflow
+		// when the supply would reach 2^256.  Expected: refund (B) with the L1 sequence consumed.
+		// (monitor-only: the model's amounts are unbounded)
+		{
+			p255 := new(big.Int).Lsh(big.NewInt(1), 255)
+			for vi, amts := range [][]*big.Int{{p255, p255}, {p255, new(big.Int).Sub(p255, big.NewInt(1)), big.NewInt(1)}} {
+				branch, _ := fx.base.CacheContext()
+				e.Ctx = branch
+				ovDenom := ophosttypes.L2Denom(sc.BridgeID, "uoverflow") // a denom of its own: supply starts at 0
+				tr := L2Track{Accts: sc.Case.Track.Accts, Denoms: append(append([]string{}, sc.Case.Track.Denoms...), ovDenom)}
+				var ops []L2Op
+				for k, a := range amts {
+					op := sc.Deposit(e.User(uint64(1+k%2)).Str, n1+uint64(k), e.User(6).Str, 0, a, Hook{Kind: "none"})
+					op.Denom, op.Base = ovDenom, "uoverflow"
+					ops = append(ops, op)
+					pre := l2ViewOf(tr, e.L2Obs(tr, ExecResult{OK: true}))
+					res := e.L2Exec(op)
+					post := l2ViewOf(tr, e.L2Obs(tr, res))
+					last := k == len(amts)-1
+					run := &c07Run{Shape: c07Shape{"valid", "2^255-ish", "none"}, Base: b, Op: op, Res: res}
+					refunded := false
+					for _, ev := range parseL2EvList(res.Events) {
+						if ev.IsDep && !ev.Success {
+							refunded = true
+						}
+					}
+					switch {
+					case !res.OK:
+						fx.rep.Violate(Violation{Case: rep.Cases + 1, Step: k, Sig: "C07:guarded-fault-escaped",
+							What: "a panic of the stock bank keeper inside the guarded region (supply overflow at 2^256) escaped the handler: " + res.Err, Ops: opsCoq(ops)})
+					case post.N1 != pre.N1+1:
+						fx.viol(run, "C07:seq-not-advanced", "supply-overflow deposit did not advance the L1 sequence")
+					case last && (!refunded || !post.sameBank(pre) || post.N2 != pre.N2+1):
+						fx.rep.Violate(Violation{Case: rep.Cases + 1, Step: k, Sig: "C07:two-outcomes",
+							What: "the deposit that would overflow the supply was not refunded with the bank unchanged", Ops: opsCoq(ops)})
+					case !last && refunded:
+						fx.rep.Violate(Violation{Case: rep.Cases + 1, Step: k, Sig: "C07:good-deposit-refunded",
+							What: "a deposit below the 2^256 supply bound was refunded", Ops: opsCoq(ops)})
+					}
+				}
+				e.Ctx = fx.base
+				caseID++
+				rep.Ops += len(ops)
+				rep.CountCase(fmt.Sprintf("%d/overflow/%d", b, vi), true)
+				rep.Hist("natural-panic:supply-overflow")
+			}
+		}
 		// the DENOM axis: base denoms at the length boundaries L1 accepts (3..128 characters; 1, 2 and
 		// 129 are not valid denoms and must be rejected), over the whole allowed alphabet, ibc/- and
 		// l2/-shaped; each as the FIRST deposit of its L2 denom (no bank metadata, no pair yet) and as a
@@ -741,6 +896,8 @@ func genC07(seed uint64, tier string, outdir string) *Report {
 		}
 		rep.Notes = append(rep.Notes, fmt.Sprintf("gas clause, base %s: out-of-gas hook %d <= instantly failing hook %d + hook_max_gas %d (+ %d slack for the grown account record)", k, g[1], g[0], c07SmallGas, c07GasSlack))
 	}
+	rep.KnownChecked = append(rep.KnownChecked, KnownResult{ID: "C07:reason-attribute:invalid-utf8", StillFails: known["reason-utf8"],
+		What: "the reason attribute of finalize_token_deposit is not valid UTF-8 for payload-controlled multi-byte error text"})
 	for _, c := range c07Classes {
 		rep.KnownChecked = append(rep.KnownChecked, KnownResult{ID: "C07:unguarded-fault:" + c, StillFails: known[c],
 			What: "fault injected at the unguarded call-site class '" + c + "' surfaces as a handler failure"})
